@@ -67,8 +67,19 @@ func Int(name string, lo, hi int) int {
 	return v
 }
 func Int64(name string) int64 { return int64(get(name)) }
+
+// IntBits: every signed integer of the given number of bits, as an int64.
+func IntBits(name string, bits int) int64 {
+	return int64(get(name)<<(64-uint(bits))) >> (64 - uint(bits))
+}
 func Int16(name string) int16 { return int16(get(name)) }
 func Itoa(n int64) string     { return strconv.FormatInt(n, 10) }
+
+// ParseInt reads back a decimal integer text (under the engine: the integer term the text was made of).
+func ParseInt(s string) (int64, bool) {
+	n, err := strconv.ParseInt(s, 10, 64)
+	return n, err == nil
+}
 func StringN(name string, n int) string {
 	b := make([]byte, n)
 	for i := range b {
